@@ -274,6 +274,10 @@ def between_comparer(comparer_params_eval, student_eval, utils):
     if not np.isreal(student_eval):
         raise InputTypeError("Input must be real.")
 
+    # A real value can still carry a complex type (eg, "(1.5*i)/i"), which
+    # cannot be ordered; compare its real part
+    student_eval = np.real(student_eval)
+
     return start <= student_eval <= stop
 
 def congruence_comparer(comparer_params_eval, student_eval, utils):
